@@ -24,5 +24,5 @@ try:
         if p.returncode not in (0, 1):
             print(p.stdout[-1500:])
 finally:
-    subprocess.run("git -C /repo checkout -- . && git -C /repo reset -q", shell=True)
+    subprocess.run("git -C /repo checkout -- . && git -C /repo reset -q && git -C /repo clean -fdq src tests", shell=True)
 json.dump(meta, open(os.path.join(d, "meta.json"), "w"), indent=1)
